@@ -37,3 +37,103 @@ Proof.
         eapply IH; eauto. lia.
     + apply Nat.ltb_ge in Hlt. lia.
 Qed.
+
+(* ------------------------------------------------------------------ state helpers *)
+Lemma nth_error_skipn {A} (l : list A) n k : nth_error (skipn n l) k = nth_error l (n + k).
+Proof.
+  revert l. induction n as [|n IH]; intros l; cbn; [reflexivity|].
+  destruct l; cbn; [destruct k; reflexivity|apply IH].
+Qed.
+
+Lemma find_item_some s f ix :
+  find_item s f = Some ix ->
+  in_scope s ix = true /\
+  exists a st, nth_error (items s) ix = Some a /\ ist_at s ix = Some st /\
+               present st = true /\ f ix a = true.
+Proof.
+  unfold find_item. intros H. apply find_from_some in H.
+  destruct H as (Hr & _ & _ & a & st & Ha & Hs & Hp & Hf).
+  rewrite nth_error_skipn in Ha. rewrite nth_error_skipn in Hs.
+  replace (sc_start s + (ix - sc_start s)) with ix in * by lia.
+  split.
+  - unfold in_scope. apply andb_true_intro. split; [apply Nat.leb_le|apply Nat.ltb_lt]; lia.
+  - exists a, st. auto.
+Qed.
+
+Lemma find_item_none s f :
+  find_item s f = None ->
+  forall ix a st, in_scope s ix = true -> nth_error (items s) ix = Some a ->
+                  ist_at s ix = Some st -> present st = true -> f ix a = false.
+Proof.
+  unfold find_item. intros H ix a st Hin Ha Hs Hp.
+  unfold in_scope in Hin. apply andb_prop in Hin. destruct Hin as [H1 H2].
+  apply Nat.leb_le in H1. apply Nat.ltb_lt in H2.
+  pose proof (find_from_none _ _ _ _ _ H (ix - sc_start s) a st) as Hn.
+  replace (sc_start s + (ix - sc_start s)) with ix in Hn by lia.
+  apply Hn; try assumption.
+  - rewrite nth_error_skipn. replace (sc_start s + (ix - sc_start s)) with ix by lia. exact Ha.
+  - rewrite nth_error_skipn. replace (sc_start s + (ix - sc_start s)) with ix by lia. exact Hs.
+Qed.
+
+Lemma sremove_other_present k ix s jx :
+  jx <> ix -> ist_at (sremove k ix s) jx = ist_at s jx.
+Proof.
+  intros Hne. unfold sremove.
+  destruct (in_scope s ix && _); [|reflexivity].
+  unfold ist_at; cbn. clear -Hne.
+  revert ix jx Hne. induction (ist s) as [|x l IH]; intros ix jx Hne; cbn.
+  - destruct ix; reflexivity.
+  - destruct ix, jx; cbn; try reflexivity; try congruence. apply IH. congruence.
+Qed.
+
+Lemma sremove_items k ix s : items (sremove k ix s) = items s.
+Proof. unfold sremove. destruct (_ && _); reflexivity. Qed.
+
+Lemma sremove_scope k ix s jx : in_scope (sremove k ix s) jx = in_scope s jx.
+Proof. unfold sremove. destruct (_ && _); reflexivity. Qed.
+
+Lemma get_some s ix a :
+  get s ix = Some a ->
+  in_scope s ix = true /\ nth_error (items s) ix = Some a /\
+  exists st, ist_at s ix = Some st /\ present st = true.
+Proof.
+  unfold get. destruct (in_scope s ix) eqn:Hin; cbn [andb]; [|discriminate].
+  destruct (ist_at s ix) as [st|] eqn:Hs; [|discriminate].
+  destruct (present st) eqn:Hp; [|discriminate].
+  intros H. repeat split; auto. eauto.
+Qed.
+
+Lemma save_conflicts_go_length win a b : length (save_conflicts_go win a b) = length a.
+Proof.
+  revert b. induction a as [|x a IH]; intros b; cbn; [reflexivity|].
+  destruct b; cbn; [reflexivity|]. rewrite IH. reflexivity.
+Qed.
+
+Lemma save_conflicts_go_present win a b i :
+  option_map present (nth_error (save_conflicts_go win a b) i) = option_map present (nth_error a i).
+Proof.
+  revert b i. induction a as [|x a IH]; intros b i; cbn; [reflexivity|].
+  destruct b as [|y b]; cbn; [reflexivity|].
+  destruct i; cbn.
+  - destruct (present x && parsed y) eqn:Hc; [|reflexivity].
+    apply andb_prop in Hc. destruct Hc as [Hx _]. cbn. rewrite Hx. reflexivity.
+  - apply IH.
+Qed.
+
+Lemma find_from_before f ix its sts e r :
+  find_from f ix its sts e = Some r ->
+  forall k a st, ix + k < r -> nth_error its k = Some a -> nth_error sts k = Some st ->
+                 present st = true -> f (ix + k) a = false.
+Proof.
+  revert ix sts. induction its as [|a its IH]; intros ix sts H k a' st' Hk Ha Hs Hp.
+  - destruct k; discriminate.
+  - destruct sts as [|st sts]; [destruct k; discriminate|].
+    cbn in H. destruct (Nat.ltb ix e) eqn:Hlt; [|discriminate].
+    destruct (present st && f ix a) eqn:Hc.
+    + inversion H; subst r. lia.
+    + destruct k as [|k]; cbn in Ha, Hs.
+      * inversion Ha; inversion Hs; subst. rewrite Hp in Hc. cbn in Hc.
+        replace (ix + 0) with ix by lia. exact Hc.
+      * replace (ix + S k) with (S ix + k) by lia.
+        eapply IH; eauto. lia.
+Qed.
